@@ -13,6 +13,8 @@ lake workspace, so concurrent checks do not interfere).
   ThreadController.is_pause / is_active (C17, C02)          negation of the resume / shutdown event
   EnvStep.done (C20)                                        terminated || truncated
   Trainer.is_trainable (C13; effects declared)              the decision of Trainer.Tr.isTrainable
+  SleepIntervalAdjustor.adjust_impl (C16)                   the sleep argument of Adjust.Adj.adjust
+  TimeController.sleep (C06, C16)                           Clock.sleepReal
 
 Outcome per function: `tied` (the theorem checks), `unavailable` (the function left the translatable
 subset or renamed what it reads: no claim, the dynamic correspondence still covers it), or a
@@ -38,6 +40,7 @@ import Pamiq.Model.Clock
 import Pamiq.Model.Sched
 import Pamiq.Model.Bookkeep
 import Pamiq.Model.Trainer
+import Pamiq.Model.Adjust
 namespace Pamiq.Gen
 open Pamiq
 """
@@ -49,6 +52,9 @@ STATUS_NAME = """def statusName : WebQ.Status → String
 
 # side effects of a function that do not enter its value (declared, so that nothing is dropped silently)
 EFFECTS = {"isTrainable": ("update", "assign:_previous_training_time")}
+
+# functions whose "value" is the argument of one call they may make
+VALUE_CALL = {"adjustImpl": "sleep", "clockSleep": "sleep"}
 
 EXPECTED = {
     "getCurrentStatus": (("is_shutdown","Bool"),("is_pause","Bool"),("is_resume","Bool"),("check_all_threads_paused","Bool"),("check_any_threads_paused","Bool")),
@@ -62,6 +68,8 @@ EXPECTED = {
     "controllerIsPause": (("is_resume","Bool"),),
     "controllerIsActive": (("is_shutdown","Bool"),),
     "envStepDone": (("terminated","Bool"),("truncated","Bool")),
+    "clockSleep": (("is_paused","Bool"),("time_scale","Rat"),("secs","Rat")),
+    "adjustImpl": (("last_reset_time","Rat"),("time_to_wait","Rat"),("perf_counter","Rat")),
     "isTrainable": (("training_condition_data_user_is_none","Bool"),("len_data_user","Rat"),("min_buffer_size","Rat"),("count_data_added_since","Rat"),("min_new_data_count","Rat")),
 }
 
@@ -160,6 +168,22 @@ theorem isTrainable_decision (t : Trainer.Tr) (us : Trainer.Users) (now : Rat) (
   simp only [hc, hu] at h
   split at h <;> (cases h; simp_all)
 """),
+    (("C06", "C16"), "time.py", "TimeController", "sleep", "clockSleep", (), "",
+     """/-- `sleep(secs)` hands `secs / scale` to the stdlib sleep, nothing at all while paused (`sleep_len`). -/
+theorem clockSleep_is_model (c : Clock.Ctl) (secs : Rat) :
+    clockSleep { is_paused := c.paused, time_scale := c.scale, secs := secs } = Clock.sleepReal c secs := by
+  unfold clockSleep Clock.sleepReal
+  cases c.paused <;> rfl
+"""),
+    (("C16",), "interaction/interval_adjustors.py", "SleepIntervalAdjustor", "adjust_impl", "adjustImpl", (), "",
+     """/-- What `adjust_impl` hands to `time.sleep` (nothing when the interval is already over) is the model's:
+the remaining part of `last reset + (interval - offset)`, measured on the system perf-counter. -/
+theorem adjustImpl_is_model (a : Adjust.Adj) (t : Adjust.Tl) (env : Adjust.AdjEnv) (l : Rat) (h : a.last = some l) :
+    adjustImpl { last_reset_time := l, time_to_wait := a.timeToWait, perf_counter := t.sys } = (a.adjust t env).slept := by
+  unfold adjustImpl Adjust.Adj.adjust
+  simp only [h, gt_iff_lt, decide_eq_true_eq]
+  split <;> rfl
+"""),
     (("C20",), "gym/types.py", "EnvStep", "done", "envStepDone", (), "",
      """/-- An episode has ended iff the step was terminated or truncated (the test of `Gym.affect`). -/
 theorem envStepDone_is_or (t u : Bool) : envStepDone { terminated := t, truncated := u } = (t || u) := by
@@ -176,7 +200,7 @@ def generate(repo: Path, props: tuple[str, ...] | None = None):
         if props is not None and not (set(ps) & set(props)):
             continue
         try:
-            g = T.translate(repo, rel, cls, fn, name, enums, EFFECTS.get(name, ()))
+            g = T.translate(repo, rel, cls, fn, name, enums, EFFECTS.get(name, ()), VALUE_CALL.get(name))
         except T.Untranslatable as e:
             skipped.append((f"{cls}.{fn}", str(e)))
             continue
